@@ -144,6 +144,8 @@ fn dedup_keep<T: Eq + std::hash::Hash + Copy>(xs: impl Iterator<Item = T>) -> Ve
 }
 
 struct RealRun {
+    /// first (row, key) where `get_by_id(column_id(key), row)` and `get_property(row, key)` disagreed
+    byid_mismatch: Option<String>,
     obs: String,
     repr_changes: u64,
     events: Vec<&'static str>,
@@ -165,6 +167,7 @@ fn run_real(items: &[Item]) -> RealRun {
     let mut prev_dense: Vec<Option<bool>> = vec![None; keys.len()];
     let mut prev_typed: Vec<Option<bool>> = vec![None; keys.len()];
     let mut repr_changes = 0;
+    let mut byid_mismatch: Option<String> = None;
     let mut events: Vec<&'static str> = vec![];
     // per key: min / max row ever set (a superset of any dense band of that column)
     let mut span: std::collections::HashMap<u32, (usize, usize)> = std::collections::HashMap::new();
@@ -200,7 +203,16 @@ fn run_real(items: &[Item]) -> RealRun {
         let mut gets = Vec::with_capacity(probe_rows.len() * names.len());
         for r in &probe_rows {
             for n in &names {
-                gets.push(from_pv(&st.get_property(*r, n)));
+                let v = from_pv(&st.get_property(*r, n));
+                // the second public read path (plan-time column id) must agree with the first
+                let by_id = match st.column_id(n) {
+                    Some(id) => from_pv(&st.get_by_id(id, *r)),
+                    None => "n".to_string(),
+                };
+                if by_id != v && byid_mismatch.is_none() {
+                    byid_mismatch = Some(format!("row {} key {}: get_property={} get_by_id={}", r, n, v, by_id));
+                }
+                gets.push(v);
             }
         }
         let mut ks = vec![];
@@ -244,7 +256,7 @@ fn run_real(items: &[Item]) -> RealRun {
         }
         obs.push(format!("{}|{}|{}|{}", gets.join(","), ks.join(","), lens.join(","), dense));
     }
-    RealRun { obs: obs.join(";"), repr_changes, events }
+    RealRun { byid_mismatch, obs: obs.join(";"), repr_changes, events }
 }
 
 /// strip the (never compared) dense field of every observation
@@ -293,6 +305,8 @@ fn big_case(rng: &mut Rng, thorough: bool) -> Vec<Item> {
     }
     items.push(Item::Sweep);
     let top = base + (n - 1) * stride;
+    // the current lowest / highest row ever written to key 1 (first / last slot of a dense band)
+    let (mut lo, mut hi) = (base, top);
     let stages = if thorough { 3 } else { 2 };
     for stage in 0..stages {
         let m = 20 + rng.usize(40);
@@ -307,7 +321,7 @@ fn big_case(rng: &mut Rng, thorough: bool) -> Vec<Item> {
                 4 => Item::Set(base + 10_000_000, key, val_of(kind, x)),                      // far away: demote
                 5 | 6 => Item::Set(inband, key, val_of(kind, x)),
                 7 | 8 => Item::Remove(inband, key),
-                9 => Item::Clear(*rng.pick(&[base, top, base + (n / 2) * stride, base + 1])),
+                9 => Item::Clear(*rng.pick(&[base, top, base + (n / 2) * stride, base + 1, lo, hi, lo, hi])),
                 10 => Item::Set(inband + 1, key, val_of(kind, x)), // a hole of a strided band
                 11 => Item::Remove(base + 10_000_000, key),
                 12 => Item::Set(inband, 2, val_of(rng.below(4) as u8, x)),
@@ -322,6 +336,12 @@ fn big_case(rng: &mut Rng, thorough: bool) -> Vec<Item> {
                     }
                 }
             });
+            if let Some(Item::Set(r, 1, _)) = items.last() {
+                if *r < base + 5_000_000 {
+                    lo = lo.min(*r);
+                    hi = hi.max(*r);
+                }
+            }
         }
         if stage == 0 && rng.chance(1, 2) {
             // removals down to (and past) the break-even fill, then one write outside the band
@@ -343,6 +363,74 @@ fn big_case(rng: &mut Rng, thorough: bool) -> Vec<Item> {
             }
             items.push(Item::Sweep);
         }
+    }
+    items
+}
+
+/// Deterministic histories that a uniform draw reaches too rarely, one per column type:
+/// variant 0 = demote -> re-promote -> rebase -> extend -> clear first/last row -> thin out -> demote;
+/// variant 1 = descending fill (promotion, then one rebase per row), extension right after a rebase,
+///             clear_row of the first and the last row of the dense band, re-set, spill by a type change.
+fn scenario(kind: u8, variant: u8) -> Vec<Item> {
+    let key = 1u32;
+    let mut items = vec![];
+    let v = |n: u64| val_of(kind, n);
+    if variant == 0 {
+        let base = 500usize;
+        for i in 0..1100usize {
+            items.push(Item::Set(base + i, key, v(i as u64)));
+        }
+        items.push(Item::Set(base, 2, Val::Str(0)));
+        items.push(Item::Sweep);
+        items.push(Item::Set(base + 10_000_000, key, v(1))); // demote
+        items.push(Item::Remove(base + 10_000_000, key));
+        items.push(Item::Sweep);
+        for i in 1100..2060usize {
+            items.push(Item::Set(base + i, key, v(i as u64))); // len crosses 2048: promoted again
+        }
+        items.push(Item::Sweep);
+        items.push(Item::Set(base - 1, key, v(7))); // rebase
+        items.push(Item::Set(base + 2060, key, v(8))); // extend, right after a rebase
+        items.push(Item::Set(base - 3, key, v(9))); // rebase over a gap
+        items.push(Item::Clear(base - 3)); // first row of the band
+        items.push(Item::Clear(base + 2060)); // last row of the band
+        items.push(Item::Clear(base)); // a row that also has key 2
+        items.push(Item::Set(base - 3, key, v(10)));
+        items.push(Item::Remove(base + 1000, key));
+        items.push(Item::Sweep);
+        for i in 0..2060usize {
+            if i % 10 != 0 {
+                items.push(Item::Remove(base + i, key)); // thin out far below break-even (stays dense)
+            }
+        }
+        items.push(Item::Sweep);
+        items.push(Item::Set(base + 2070, key, v(11))); // outside the band at low fill: demote
+        items.push(Item::Set(base - 10, key, v(12)));
+        items.push(Item::Sweep);
+    } else {
+        let base = 64usize;
+        let n = 1030usize;
+        for i in (0..n).rev() {
+            items.push(Item::Set(base + i, key, v(i as u64))); // promoted at 1024 entries, then 6 rebases
+        }
+        items.push(Item::Set(base + n, key, v(1))); // extension right after the rebases
+        items.push(Item::Set(base + 5, 2, Val::Int(5)));
+        items.push(Item::Sweep);
+        items.push(Item::Clear(base)); // first row
+        items.push(Item::Clear(base + n)); // last row
+        items.push(Item::Clear(base + 5)); // a row with two keys
+        items.push(Item::Sweep);
+        items.push(Item::Set(base, key, v(2))); // re-set after clear
+        items.push(Item::Set(base + n, key, v(3)));
+        items.push(Item::Remove(base + n, key));
+        items.push(Item::Remove(base + n, key)); // removing an absent row twice
+        items.push(Item::Set(base + n + 1, key, v(4))); // extend past a cleared last slot
+        items.push(Item::Sweep);
+        items.push(Item::Set(base + 7, key, val_of((kind + 1) % 4, 5))); // type change: spill from dense
+        items.push(Item::Set(base + 8, key, Val::Null));
+        items.push(Item::Remove(base + 9, key));
+        items.push(Item::Clear(base + 10));
+        items.push(Item::Sweep);
     }
     items
 }
@@ -404,6 +492,13 @@ fn main() {
                     cases.push(c);
                     n_corpus += 1;
                 }
+            } else if let Some(rest) = line.trim().strip_prefix("scn ") {
+                // "scn <kind> <variant>" = the deterministic scenario for that column type
+                let f: Vec<&str> = rest.split_whitespace().collect();
+                if let (Some(k), Some(v)) = (f.first().and_then(|x| x.parse::<u8>().ok()), f.get(1).and_then(|x| x.parse::<u8>().ok())) {
+                    cases.push(scenario(k % 4, v % 2));
+                    n_corpus += 1;
+                }
             } else if let Some(rest) = line.trim().strip_prefix("gen ") {
                 // compact corpus form: "gen <seed>" = the adversarial generator at that seed
                 if let Ok(s) = rest.trim().parse::<u64>() {
@@ -417,7 +512,13 @@ fn main() {
 
     if args.replay.is_none() {
         let mut rng = Rng::new(args.seed);
-        let (n_big, n_small) = if args.thorough() { (80, 8_000) } else { (24, 2_000) };
+        for kind in 0..4u8 {
+            for variant in 0..2u8 {
+                cases.push(scenario(kind, variant));
+            }
+        }
+        rep.count_n("deterministic_scenarios(4 column types x {re-promote, descending+first/last clear})", 8);
+        let (n_big, n_small) = if args.thorough() { (80, 8_000) } else { (18, 2_000) };
         for _ in 0..n_big {
             let mut r = rng.fork();
             cases.push(big_case(&mut r, args.thorough()));
@@ -439,7 +540,7 @@ fn main() {
                 .collect();
             hs.into_iter()
                 .flat_map(|h| h.join().expect("real thread"))
-                .map(|r| r.unwrap_or(RealRun { obs: "panic".into(), repr_changes: 0, events: vec![] }))
+                .map(|r| r.unwrap_or(RealRun { byid_mismatch: None, obs: "panic".into(), repr_changes: 0, events: vec![] }))
                 .collect()
         });
         let mut lines = Vec::with_capacity(chunk.len() * 2);
@@ -497,6 +598,10 @@ fn main() {
                 rep.count("impl_panic");
                 rep.spec_violation(&known, "panic", &format!("ColumnStore panicked on a history of {} ops", c.len()), &body);
                 continue;
+            }
+            if let Some(w) = &rr.byid_mismatch {
+                rep.count("spec_violation:get_by_id-differs");
+                rep.spec_violation(&known, "get_by_id-differs", &format!("ColumnStore::get_by_id disagrees with get_property ({}) in a history of {} ops", w, c.len()), &body);
             }
             if s != "ok" {
                 let sig = match s.strip_prefix("viol ").and_then(|x| x.parse::<usize>().ok()) {
